@@ -420,6 +420,8 @@ def _kinds_instances(tier):
     return out
 
 
+TIER_PARAMS = {'thorough': {'deadline_s': 5400}}
+
 HARNESSES = [
     H('h1_1_ehdr', h_ehdr, lambda tier: [dict(elfclass=c, little=l, free=f) for c, l in ENVS
                                          for f in ((['e_type'], ['e_machine'], ['e_version', 'EI_VERSION'], ['EI_OSABI']) if tier == 'quick' else (None,))], expect=('ok',),
